@@ -41,7 +41,8 @@ class Unit:
                     'trace': traceback.format_exc()[-1500:], 'agg': {}, 'paths': 0, 'symexec_s': time.time() - t0}
         t1 = time.time()
         from .core import TIME_AXIOMS
-        agg = solve.discharge(obs, list(axioms) + TIME_AXIOMS, timeout_ms or self.timeout_ms, shard=shard if self.shards > 1 else None)
+        to = timeout_ms or self.timeout_ms
+        agg = solve.discharge(obs, list(axioms) + TIME_AXIOMS, to, shard=shard if self.shards > 1 else None, retries=2 if to >= 30000 else 1)
         return {'agg': agg, 'paths': len(obs), 'symexec_s': t1 - t0, 'solve_s': time.time() - t1, 'sha': eng.src.sha,
                 'sample': _sample(obs)}
 
